@@ -227,7 +227,7 @@ var capacities = []uint64{5, 10, 16, 50, 100, 100, 1000, 4096}
 func TestC08(t *testing.T) {
 	run := ev.Start(t, "C08", "exploration",
 		"phase 1: PRNG histories of 50-110 symbolic ops over 4-6 keys on a real memory.Store (capacity 5..4096 B, five op-mix "+
-			"profiles, 60% handle-heavy), every handle retained; non-trivial = >=1 LRU eviction and >=1 operation on a handle whose "+
+			"profiles, 60% handle-heavy; fresh blobs written front to back, tail-only or tail-then-head, WriteAt past the written extent leaves gaps that must read as zeros), every handle retained; non-trivial = >=1 LRU eviction and >=1 operation on a handle whose "+
 			"blob was evicted/deleted/re-created. phase 2: concurrent rounds (2-4 writers with disjoint keys, 2-6 readers, a "+
 			"deleter/banner, a capacity sampler) on a store holding 1.5-3.5 blobs; non-trivial = >=1 read verified against the "+
 			"handle's (key,generation) tag and >=1 handle observed to go stale. distinct = distinct (config, op list) / round config.")
@@ -322,6 +322,7 @@ func oneHistory(t *testing.T, run *ev.Run, i int) {
 	run.Count("scope_hidden_calls", int64(d.ScopeHides))
 	run.Count("nonmovable_md_dropped_at_completion", int64(d.MDDrops))
 	run.Count("refused_creates", int64(d.FailedCreates))
+	run.Count("writes_leaving_unwritten_gap", int64(d.Gaps))
 	run.Distinct("configs", fmt.Sprintf("%d/%d", cfg.Capacity, cfg.Profile))
 	if run.WantSample() && i%1999 == 0 {
 		tr := d.Trace
